@@ -184,6 +184,14 @@ def model_of(desc):
 def cases(tier, seed):
     for d in _core():
         yield d
+        # every double-inclusion tree also with the root suite given as an ABSOLUTE path (the spelling of a path
+        # through `..` or a symbolic link must not hide that a suite is reachable twice)
+        if d.get('kind') == 'core-invalid' and str(d.get('label', '')).startswith('double:') \
+                and d.get('arg_form', 'rel') == 'rel' and not d.get('cwd'):
+            d2 = dict(d)
+            d2['arg_form'] = 'abs'
+            d2['label'] = d['label'] + ':abs-root-arg'
+            yield d2
     n = 150 if tier == 'quick' else 3000
     rng = common.rng_for(seed, ID, 'random-trees')
     for i in range(n):
